@@ -296,7 +296,8 @@ def energy_estimate(model, layer_map, weights_on_memory,
     # AveragePooling and GlobalAveragePooling
     elif layer.__class__.__name__ in [
         "AveragePooling2D", "AvgPool2D", "GlobalAvgPool2D",
-        "GlobalAveragePooling2D"]:
+        "GlobalAveragePooling2D", "QAveragePooling2D",
+        "QGlobalAveragePooling2D"]:
       # accumulation operation energy
       accumulator = qtools_util.get_val(layer_item, "pool_sum_accumulator")
       add_energy = OP[get_op_type(accumulator.output)]["add"](
